@@ -30,42 +30,9 @@ RULE += (' ' +
          'login path (delegated to C10) with non-ASCII and dash-prefixed '
          'server ids and with a session service that refuses the first join '
          'attempts (every join names one hash); two overlapping join() calls '
-         'on shared and separate tokens. ')
-RULE += (' ' +
-         'Added in later rounds: four DER encodings of the key; the full '
-         'login path (delegated to C10) with non-ASCII and dash-prefixed '
-         'server ids and with a session service that refuses the first join '
-         'attempts (every join names one hash); two overlapping join() calls '
          'on shared and separate tokens. Round 11: secret and key as '
-         'bytearray / memoryview / array / slice of a view. ')
-RULE += (' ' +
-         'Added in later rounds: four DER encodings of the key; the full '
-         'login path (delegated to C10) with non-ASCII and dash-prefixed '
-         'server ids and with a session service that refuses the first join '
-         'attempts (every join names one hash); two overlapping join() calls '
-         'on shared and separate tokens. Round 11: secret and key as '
-         'bytearray / memoryview / array / slice of a view. ')
-RULE += (' ' +
-         'Added in later rounds: four DER encodings of the key; the full '
-         'login path (delegated to C10) with non-ASCII and dash-prefixed '
-         'server ids and with a session service that refuses the first join '
-         'attempts (every join names one hash); two overlapping join() calls '
-         'on shared and separate tokens. Round 11: secret and key as '
-         'bytearray / memoryview / array / slice of a view. ')
-RULE += (' ' +
-         'Added in later rounds: four DER encodings of the key; the full '
-         'login path (delegated to C10) with non-ASCII and dash-prefixed '
-         'server ids and with a session service that refuses the first join '
-         'attempts (every join names one hash); two overlapping join() calls '
-         'on shared and separate tokens. Round 11: secret and key as '
-         'bytearray / memoryview / array / slice of a view. ')
-RULE += (' ' +
-         'Added in later rounds: four DER encodings of the key; the full '
-         'login path (delegated to C10) with non-ASCII and dash-prefixed '
-         'server ids and with a session service that refuses the first join '
-         'attempts (every join names one hash); two overlapping join() calls '
-         'on shared and separate tokens. Round 11: secret and key as '
-         'bytearray / memoryview / array / slice of a view. ')
+         'bytearray / memoryview / array / slice of a view. Round 16: server '
+         'ids of 127 / 128 / 300 / 16383 / 16384 / 18000 UTF-8 bytes. ')
 LEVEL_TEXT = ('Differential testing against an independent Java-BigInteger '
               'hex reference with directed search for every digest edge '
               'class plus crafted digests and seeded random inputs.')
